@@ -298,6 +298,73 @@ func c15Units(tier string, seed int64) []Unit {
 			})
 		}})
 	}
+	// two DIFFERENT expressions that meet in the process-wide caches (compiled regexps, character-class generators,
+	// expanded tables): each check draws what it draws alone in a process that has built nothing else
+	for _, pair := range [][2]string{{`[0-9A-Fa-f]{4}`, `(?i)[0-9a-f]{4}`}, {`\d\d`, `(?i)\d\d`}, {`[\p{L}\x{1F300}-\x{1FAFF}]{3}`, `[\p{L}\x{1F300}-\x{1FAFF}\x{20000}-\x{2A6DF}]{3}`}, {`[\p{Lu}\p{Nd}]{2}`, `[\p{Lu}\p{Nd}_]{2}`}} {
+		pair := pair
+		units = append(units, Unit{Name: fmt.Sprintf("C15/two-expressions-meeting-in-the-caches/%s|%s", pair[0], pair[1]), Run: func(c *Ctx) {
+			tbq := NewTB("C15")
+			tbq.Quiet = true
+			words := make([][]uint64, 2)
+			solo := make([]string, 2)
+			for i := range solo {
+				// fixed words: the recording of a PRNG seed, taken alone with empty caches
+				for sd := uint64(1); sd < 50 && words[i] == nil; sd++ {
+					rapid.VerifResetCaches()
+					g := rapid.StringMatching(pair[i])
+					res := rapid.VerifRunSeed(tbq, uint64(seed)*131+sd*17+uint64(i), false, func(t *rapid.T) { solo[i] = g.Draw(t, "s") + "|" + g.Draw(t, "s2") })
+					if res.Kind == rapid.VerifOK {
+						words[i] = res.Data
+					}
+				}
+				if words[i] == nil {
+					c.R.HarnessErr = "no valid run of " + pair[i]
+					return
+				}
+			}
+			d := &SchedDFS{Bound: 1, MaxSteps: 20000, MaxExecs: 20000}
+			if !quick {
+				d.Bound, d.MaxExecs = 2, 300000
+			}
+			c.R.Bounds = fmt.Sprintf("preemption bound %d, 2 threads", d.Bound)
+			got := make([]string, 2)
+			kinds := make([]int, 2)
+			setup := func() { rapid.VerifResetCaches() }
+			body := func() {
+				var hs []*vsync.Handle
+				for i := 0; i < 2; i++ {
+					i := i
+					hs = append(hs, vsync.Go(func() {
+						tb := NewTB("C15")
+						tb.Quiet = true
+						g := rapid.StringMatching(pair[i])
+						got[i] = ""
+						res := rapid.VerifRunBuf(tb, words[i], false, func(t *rapid.T) { got[i] = g.Draw(t, "s") + "|" + g.Draw(t, "s2") })
+						kinds[i] = res.Kind
+					}))
+				}
+				for _, h := range hs {
+					h.Join()
+				}
+			}
+			d.Explore(c, setup, body, func(ex *vsync.Exec, choices []int) {
+				replay := map[string]any{"engine": "sched", "program": pair, "threads": 2, "schedule": choices}
+				if ex.Deadlock != "" {
+					c.Violate(Violation{Sig: "C15 deadlock prog=two-expressions", Detail: ex.Deadlock + "\nschedule: " + scheduleString(ex), Replay: replay})
+					return
+				}
+				c.Outcome(strings.Join(got, " || "), preemptions(ex.Points, len(ex.Points)) > 0)
+				for _, rc := range racesOf(ex) {
+					c.Violate(Violation{Sig: "C15 data-race " + rc, Detail: fmt.Sprintf("unordered conflicting accesses: %s\nchecks using %q and %q\nschedule: %s", rc, pair[0], pair[1], scheduleString(ex)), Replay: replay, Devs: preemptions(ex.Points, len(ex.Points))})
+				}
+				for i := range got {
+					if got[i] != solo[i] || kinds[i] != rapid.VerifOK {
+						c.Violate(Violation{Sig: "C15 draws-differ-from-solo-run prog=two-expressions-meeting-in-the-caches", Detail: fmt.Sprintf("the check using StringMatching(%q) drew %q (%s) next to a check using %q; alone it draws %q\nschedule: %s", pair[i], got[i], kindName(kinds[i]), pair[1-i], solo[i], scheduleString(ex)), Replay: replay, Devs: preemptions(ex.Points, len(ex.Points))})
+					}
+				}
+			})
+		}})
+	}
 	units = append(units, siblingsUnit("C15"))
 	nfree := 60
 	if !quick {
